@@ -281,13 +281,85 @@ Section Base.
     Qed.
   End StopAtErrors.
 
+  (** ** callbacks that stop at errors and at the records that are not [good] (fix F27: the stats
+         callback stops with the date error at a heading that is not a date): on a stretch of
+         good records they behave like the callbacks above *)
+  Section StopAtErrorsGood.
+    Context {S E : Type} (cb : S -> event -> S * bool * option E) (f : perr -> E) (g : S -> pnode -> S)
+            (good : pnode -> Prop).
+    Hypothesis cb_err : forall s e, cb s (EErr e) = (s, true, Some (f e)).
+    Hypothesis cb_node : forall s n, good n -> cb s (ENode n) = (g s n, false, None).
+
+    Lemma stop_at_errors_good_loop_clean : forall evs s,
+      errors_of evs = [] -> Forall good (nodes_of evs) ->
+      drive_loop NM cb evs s = (fold_left g (nodes_of evs) s, None).
+    Proof.
+      induction evs as [|ev r IH]; intros s H Hg; [reflexivity|].
+      destruct ev as [n|e]; [|discriminate].
+      cbn [nodes_of] in Hg. inversion Hg as [|n0 r0 Hn Hr]; subst n0 r0.
+      cbn [drive_loop]. rewrite (cb_node s n Hn). cbn. apply IH; [exact H|exact Hr].
+    Qed.
+
+    Theorem stop_at_errors_good_first : forall data pre e post s,
+      events NM data = pre ++ EErr e :: post -> errors_of pre = [] -> Forall good (nodes_of pre) ->
+      parse_stream NM cb data NoFault s = (fold_left g (nodes_of pre) s, Some (inl (f e))).
+    Proof.
+      intros data pre e post s Hev Hpre Hg.
+      destruct (events_split_loop data pre e post Hev) as (post' & Hl & _).
+      rewrite parse_stream_NoFault, Hl.
+      rewrite (drive_stops cb pre (EErr e) post' _ _ s _ _ (Some (f e))
+                 (stop_at_errors_good_loop_clean pre s Hpre Hg) (cb_err _ e)).
+      reflexivity.
+    Qed.
+
+    Theorem stop_at_errors_good_clean : forall data s,
+      errors_of (events NM data) = [] -> Forall good (nodes_of (events NM data)) -> readable data ->
+      parse_stream NM cb data NoFault s = (fold_left g (nodes_of (events NM data)) s, None).
+    Proof.
+      intros data s Hc Hg Hr. rewrite parse_stream_NoFault, Hr.
+      rewrite errors_of_events in Hc.
+      rewrite events_eq, nodes_of_app in Hg. apply Forall_app in Hg. destruct Hg as [Hg1 Hg2].
+      rewrite (drive_eof cb _ _ s _ (stop_at_errors_good_loop_clean _ s Hc Hg1)).
+      - rewrite events_eq, nodes_of_app, fold_left_app. unfold last_events in *.
+        destruct (last_node data) as [n|]; [|reflexivity].
+        cbn in Hg2. inversion Hg2 as [|n0 r0 Hn Hr0]; subst n0 r0.
+        rewrite (cb_node _ n Hn). reflexivity.
+      - intros n En. unfold last_events in Hg2. rewrite En in Hg2. cbn in Hg2.
+        inversion Hg2 as [|n0 r0 Hn Hr0]; subst n0 r0.
+        rewrite (cb_node _ n Hn). eauto.
+    Qed.
+
+    (** the first record at which the callback stops with an error of its own (after a stretch of good
+        records and no malformed line): that error is returned; when the record is the last of the file
+        it is only delivered if the file is readable to the end *)
+    Theorem stop_at_errors_good_stops_at_node : forall data pre n post s s' e,
+      events NM data = pre ++ ENode n :: post -> errors_of pre = [] -> Forall good (nodes_of pre) ->
+      cb (fold_left g (nodes_of pre) s) (ENode n) = (s', true, Some e) ->
+      post <> [] \/ readable data ->
+      parse_stream NM cb data NoFault s = (s', Some (inl e)).
+    Proof.
+      intros data pre n post s s' e Hev Hpre Hg Hcb Hpost.
+      rewrite parse_stream_NoFault.
+      destruct (events_split_any data pre (ENode n) post Hev)
+        as [(post' & Hl & _)|(Hp & Hl & m & Hm & Hnm)].
+      - rewrite Hl.
+        rewrite (drive_stops cb pre (ENode n) post' _ _ s _ _ (Some e)
+                   (stop_at_errors_good_loop_clean pre s Hpre Hg) Hcb).
+        reflexivity.
+      - destruct Hpost as [Hpost|Hr]; [contradiction|].
+        inversion Hnm; subst m. rewrite Hl, Hm, Hr. unfold drive.
+        rewrite (stop_at_errors_good_loop_clean pre s Hpre Hg), Hcb. reflexivity.
+    Qed.
+  End StopAtErrorsGood.
+
   (** ** opening a plain file *)
   Definition plain_file (w : world) (p data : bytes) : Prop :=
-    p <> [] /\ lookup p (w_fs w) = Some (FFile data) /\ lookup p (w_read_fault w) = None.
+    p <> [] /\ p <> dev_null /\ lookup p (w_fs w) = Some (FFile data) /\ lookup p (w_read_fault w) = None.
 
   Lemma open_plain : forall w p data, plain_file w p data -> open_file w p = Some (OData data NoFault).
   Proof.
-    intros w p data (Hp & Hf & Hr). unfold open_file, lookup_fs.
+    intros w p data (Hp & Hd & Hf & Hr). unfold open_file, lookup_fs.
+    destruct (beq p dev_null) eqn:Eb; [apply beq_true_iff in Eb; contradiction|].
     destruct p as [|c p]; [contradiction|]. rewrite Hf, Hr. reflexivity.
   Qed.
 
